@@ -9,6 +9,7 @@ package main
 // whose promised streams finish in every way a stream can finish.
 
 import (
+	"fmt"
 	"bufio"
 	"strings"
 )
@@ -65,10 +66,21 @@ func genSrvAcct(p *prng, thorough bool, w *bufio.Writer) {
 		maxBody := 50 + p.intn(600)
 		g.newConn(8, 0, maxBody)
 		g.settings()
-		for _, d := range []int{-1, 0, 1, 0} {
+		g.gaugeEach = true // the monitor looks at the octets buffered per stream after every frame
+		for _, d := range []int{-1, 0, 1, 0, 1 + p.intn(300)} {
 			sid := g.sid()
-			g.frame(frameBytes(1, 4, sid, g.hdrBlock(false)))
 			total := maxBody + d
+			// declared length: none, the truth, the limit (allowed by itself, whatever follows), less than the truth
+			switch p.intn(4) {
+			case 0:
+				g.frame(frameBytes(1, 4, sid, g.hdrBlock(false)))
+			case 1:
+				g.frame(frameBytes(1, 4, sid, g.enc.block(nil, append(append([]kv(nil), base...), kv{k: "content-length", v: fmt.Sprint(total)}))))
+			case 2:
+				g.frame(frameBytes(1, 4, sid, g.enc.block(nil, append(append([]kv(nil), base...), kv{k: "content-length", v: fmt.Sprint(maxBody)}))))
+			default:
+				g.frame(frameBytes(1, 4, sid, g.enc.block(nil, append(append([]kv(nil), base...), kv{k: "content-length", v: fmt.Sprint(p.intn(maxBody))}))))
+			}
 			sent := 0
 			ended := false
 			for sent < total {
